@@ -10,7 +10,7 @@ pub fn stub_format(_a: core::fmt::Arguments<'_>) -> String { String::new() }
 // cheap stand-ins + recorders used by harnesses in other modules (C07): the objects are built over a one-name table so
 // that no 10/12/60-entry name table is constructed; the recorded argument is what the harness asserts on
 pub static mut REC_STEM: isize = isize::MIN;
-pub static mut REC_BRANCH: isize = isize::MIN;
+pub static mut REC_BRANCH: isize = isize::MIN + 1;
 fn one_name() -> Vec<String> { let mut v: Vec<String> = Vec::new(); v.push(String::new()); v }
 pub fn rec_stem_from_index(i: isize) -> HeavenStem { unsafe { REC_STEM = i; } HeavenStem { parent: LoopTyme::from_index(one_name(), 0) } }
 pub fn rec_branch_from_index(i: isize) -> EarthBranch { unsafe { REC_BRANCH = i; } EarthBranch { parent: LoopTyme::from_index(one_name(), 0) } }
@@ -20,7 +20,7 @@ pub fn const_cycle_from_name(_n: &str) -> SixtyCycle { SixtyCycle { parent: Loop
 // Sound for functions that only do index arithmetic on these values (names are read only by format!, which is stubbed,
 // and by the name lookup from_name, which is stubbed by a constant and decomposed as described in DESIGN 2.3);
 // NOT used for functions that compare values with == (name-based equality).
-fn empties(n: usize) -> Vec<String> { let mut v: Vec<String> = Vec::with_capacity(n); let mut i = 0; while i < n { v.push(String::new()); i += 1; } v }
+pub fn empties(n: usize) -> Vec<String> { let mut v: Vec<String> = Vec::with_capacity(n); let mut i = 0; while i < n { v.push(String::new()); i += 1; } v }
 pub fn cheap_cycle(i: isize) -> SixtyCycle { SixtyCycle { parent: LoopTyme::from_index(empties(60), i) } }
 pub fn faithful_cycle_from_index(i: isize) -> SixtyCycle { cheap_cycle(i) }
 pub fn faithful_stem_from_index(i: isize) -> HeavenStem { unsafe { REC_STEM = i; } HeavenStem { parent: LoopTyme::from_index(empties(10), i) } }
@@ -214,4 +214,157 @@ fn c17_k_hour_twelve_star() {
   let start = match db { 2 | 8 => 0, 3 | 9 => 2, 4 | 10 => 4, 5 | 11 => 6, 0 | 6 => 8, _ => 10 };
   assert!(h.get_twelve_star().get_index() as i64 == spec::emod(hb - start, 12), "hour spirits start at the branch fixed by the DAY branch and advance with the hour branch");
   kani::cover!(db == 1 && hb == 11, "hour_twelve_star reachable");
+}
+
+
+// NOTE (Kani 0.68): a zero-initialised `static mut` scalar can share its initialiser allocation with a zero constant of the
+// standard library (observed: writing 9 to such a static made String::new() report capacity 9). Every recording static
+// in the harness files therefore starts from a distinct non-zero value.
+// ---- C08 / C09: SixtyCycleDay::from_solar_day and SixtyCycleHour::from_solar_time -- the real bodies decide the year
+// pillar (changes at the start of spring) and the month pillar (changes at each Jie) from four facts they ask other
+// functions for: the start-of-spring instant of the civil year, the lunar date, the governing solar term and its
+// instant. Those four callees are replaced by stubs returning ARBITRARY values constrained only by their own contracts
+// (C06: terms are ordered; C02: the lunar year is the civil year or its neighbour), so the proof covers every such answer.
+use crate::tyme::solar::verif_k::mk_term;
+use crate::tyme::lunar::verif_k::{mk_lunar_day, mk_lunar_hour, mk_month_pub};
+use crate::tyme::jd::JulianDay;
+use std::cell::RefCell;
+static mut W_SPRING: (isize, usize, usize, usize, usize, usize) = (-7101, 7102, 7103, 7104, 7105, 7106);
+static mut W_TERMT: (isize, usize, usize, usize, usize, usize) = (-7201, 7202, 7203, 7204, 7205, 7206);
+static mut W_TERM: (isize, isize) = (-7301, -7302);
+static mut W_LY: isize = -7401;
+static mut W_BASE: isize = -7402;
+static mut W_DP: isize = -7403;
+static mut W_HP: isize = -7404;
+static mut W_FROM_YM: (isize, isize) = (-7501, -7502);
+static mut W_SPRING_ARGS_OK: bool = true;
+fn w_term_from_index(year: isize, index: isize) -> SolarTerm { unsafe { if index != 3 { W_SPRING_ARGS_OK = false; } W_FROM_YM.0 = year; } mk_term(year, index, 1.0) }
+fn w_get_term_day(_d: &SolarDay) -> SolarTerm { let (y, i) = unsafe { W_TERM }; mk_term(y, i, 2.0) }
+fn w_get_term_time(_t: &SolarTime) -> SolarTerm { let (y, i) = unsafe { W_TERM }; mk_term(y, i, 2.0) }
+fn w_term_jd(t: &SolarTerm) -> JulianDay { JulianDay::from_julian_day(t.get_cursory_julian_day()) }
+fn w_jd_solar_day(j: &JulianDay) -> SolarDay { let v = unsafe { if j.get_day() == 1.0 { W_SPRING } else { W_TERMT } }; SolarDay::from_ymd(v.0, v.1, v.2) }
+// JulianDay::get_solar_time carries a woven contract and cannot be stubbed; for the instant-based variant the term's
+// day number is a fixed code (noon of 9999-12-30 = start of spring, 9999-12-29 = governing term; the subject is kept
+// out of year 9999), the real get_solar_time turns the code into that date, and the two order tests interpret the codes
+// as the arbitrary instants (SolarTime::is_before / is_after themselves are proved in c12_k_time_order)
+fn w_term_jd_code(t: &SolarTerm) -> JulianDay { JulianDay::from_julian_day(if t.get_cursory_julian_day() == 1.0 { 5373483.0 } else { 5373482.0 }) }
+fn w_key(t: &SolarTime) -> (isize, i64) {
+  if t.get_year() == 9999 && t.get_month() == 12 && t.get_day() == 30 { let v = unsafe { W_SPRING }; (v.0, md(v.1, v.2, v.3, v.4, v.5)) }
+  else if t.get_year() == 9999 && t.get_month() == 12 && t.get_day() == 29 { let v = unsafe { W_TERMT }; (v.0, md(v.1, v.2, v.3, v.4, v.5)) }
+  else { (t.get_year(), md(t.get_month(), t.get_day(), t.get_hour(), t.get_minute(), t.get_second())) }
+}
+fn w_time_before(a: &SolarTime, b: SolarTime) -> bool { let (x, y) = (w_key(a), w_key(&b)); x.0 < y.0 || (x.0 == y.0 && x.1 < y.1) }
+fn w_time_after(a: &SolarTime, b: SolarTime) -> bool { let (x, y) = (w_key(a), w_key(&b)); x.0 > y.0 || (x.0 == y.0 && x.1 > y.1) }
+fn w_lunar_day(_d: &SolarDay) -> LunarDay { mk_lunar_day(unsafe { W_LY }, 1, 1) }
+fn w_lunar_hour(t: &SolarTime) -> LunarHour { mk_lunar_hour(unsafe { W_LY }, 1, 1, t.get_hour(), t.get_minute(), t.get_second()) }
+fn w_month_from_ym(y: isize, m: isize) -> LunarMonth { unsafe { W_FROM_YM = (y, m); } mk_month_pub(y, m) }
+fn w_month_pillar(_m: &LunarMonth) -> SixtyCycle { cheap_cycle(unsafe { W_BASE }) }
+fn w_day_pillar(_d: &LunarDay) -> SixtyCycle { cheap_cycle(unsafe { W_DP }) }
+fn w_hour_pillar(_h: &LunarHour) -> SixtyCycle { cheap_cycle(unsafe { W_HP }) }
+fn md(m: usize, d: usize, h: usize, mi: usize, s: usize) -> i64 { ((((m as i64) * 32 + d as i64) * 24 + h as i64) * 60 + mi as i64) * 60 + s as i64 }
+
+/// sets the arbitrary answers; returns (civil year sy, date/time of the subject, tseq = position of the governing term
+/// counted from the winter solstice that opens civil year sy's term cycle, subject is at or after start of spring)
+fn w_world(with_clock: bool) -> (isize, (usize, usize, usize, usize, usize), i64, bool) {
+  let sy: isize = kani::any(); kani::assume(sy >= 2 && sy <= 9998);
+  let m: usize = kani::any(); let d: usize = kani::any(); kani::assume(m >= 1 && m <= 12 && d >= 1 && d <= 28);
+  let (h, mi, s): (usize, usize, usize) = if with_clock { (kani::any(), kani::any(), kani::any()) } else { (0, 0, 0) };
+  kani::assume(h < 24 && mi < 60 && s < 60);
+  kani::assume(!(sy == 1582 && m == 10 && d >= 5 && d <= 14)); // the ten dates that do not exist
+  // start of spring: some instant of 2..6 February of sy
+  let sd: usize = kani::any(); let (sh, smi, ss): (usize, usize, usize) = if with_clock { (kani::any(), kani::any(), kani::any()) } else { (0, 0, 0) };
+  kani::assume(sd >= 2 && sd <= 6 && sh < 24 && smi < 60 && ss < 60);
+  // governing term: (ty, ti) with its instant; tseq = ti + 24 * (ty - sy) in 0..=24
+  let ty: isize = kani::any(); let ti: isize = kani::any(); kani::assume(ti >= 0 && ti < 24 && (ty == sy || (ty == sy + 1 && ti == 0)));
+  let tseq: i64 = ti as i64 + 24 * (ty - sy) as i64;
+  let tyear: isize = kani::any(); let tm: usize = kani::any(); let td: usize = kani::any();
+  let (th, tmi, ts): (usize, usize, usize) = if with_clock { (kani::any(), kani::any(), kani::any()) } else { (0, 0, 0) };
+  kani::assume(tm >= 1 && tm <= 12 && td >= 1 && td <= 28 && th < 24 && tmi < 60 && ts < 60);
+  // contract of the term callees (C06): the opening winter solstice lies in December of sy-1, every other term in sy;
+  // terms are strictly ordered, start of spring is term 3; the governing term has begun
+  kani::assume(if tseq == 0 { tyear == sy - 1 && tm == 12 } else { tyear == sy });
+  kani::assume(!(tyear == 1582 && tm == 10 && td >= 5 && td <= 14));
+  let (subj, spring, term) = (md(m, d, h, mi, s), md(2, sd, sh, smi, ss), md(tm, td, th, tmi, ts));
+  kani::assume(if tseq == 0 { true } else if tseq < 3 { term < spring } else if tseq == 3 { term == spring } else { term > spring });
+  kani::assume(tseq == 0 || term <= subj);
+  // the governing term is the LAST one that has begun: before start of spring exactly when it is one of terms 0..2
+  kani::assume((subj < spring) == (tseq < 3));
+  let ly: isize = kani::any();
+  // contract of the lunar callee (C02 + calendar fact): lunar year is sy or sy-1; sy+1 only late in the civil year
+  kani::assume(ly == sy || ly == sy - 1 || (ly == sy + 1 && subj >= spring));
+  let base: isize = kani::any(); let dp: isize = kani::any(); let hp: isize = kani::any();
+  kani::assume(base >= 0 && base < 60 && dp >= 0 && dp < 60 && hp >= 0 && hp < 60);
+  unsafe { W_SPRING = (sy, 2, sd, sh, smi, ss); W_TERMT = (tyear, tm, td, th, tmi, ts); W_TERM = (ty, ti); W_LY = ly; W_BASE = base; W_DP = dp; W_HP = hp; }
+  (sy, (m, d, h, mi, s), tseq, subj >= spring)
+}
+
+#[kani::proof]
+#[kani::unwind(61)]
+#[kani::stub(alloc::fmt::format, stub_format)]
+#[kani::stub(SolarTerm::from_index, w_term_from_index)]
+#[kani::stub(SolarDay::get_term, w_get_term_day)]
+#[kani::stub(SolarTerm::get_julian_day, w_term_jd)]
+#[kani::stub(JulianDay::get_solar_day, w_jd_solar_day)]
+#[kani::stub(SolarDay::get_lunar_day, w_lunar_day)]
+#[kani::stub(LunarMonth::from_ym, w_month_from_ym)]
+#[kani::stub(LunarMonth::get_sixty_cycle, w_month_pillar)]
+#[kani::stub(LunarDay::get_sixty_cycle, w_day_pillar)]
+#[kani::stub(SixtyCycle::from_index, faithful_cycle_from_index)]
+fn c08_k_from_solar_day() {
+  let (sy, (m, d, _, _, _), tseq, after) = w_world(false);
+  let r = SixtyCycleDay::from_solar_day(SolarDay::from_ymd(sy, m, d));
+  assert!(r.month.year.year == if after { sy } else { sy - 1 }, "the year pillar is that of the civil year from the start of spring on, of the previous year before it");
+  let k = spec::ediv(tseq - 3, 2);
+  assert!(r.month.month.get_index() as i64 == spec::emod(unsafe { W_BASE } as i64 + k, 60), "the month pillar is the first-month pillar of the civil year advanced by floor((term position - 3) / 2): it changes at each Jie and only there");
+  assert!(r.day.get_index() as isize == unsafe { W_DP } && r.solar_day == SolarDay::from_ymd(sy, m, d), "day pillar and date are carried unchanged");
+  assert!(unsafe { W_FROM_YM } == (sy, 1) && unsafe { W_SPRING_ARGS_OK }, "asks for start of spring (term 3) and the first lunar month of the civil year");
+  core::mem::forget(r);
+  kani::cover!(!after && tseq == 0, "from_solar_day reachable (January, before minor cold)");
+  kani::cover!(after && tseq == 24, "from_solar_day reachable (after the closing winter solstice)");
+}
+
+#[kani::proof]
+#[kani::unwind(61)]
+#[kani::stub(alloc::fmt::format, stub_format)]
+#[kani::stub(SolarTerm::from_index, w_term_from_index)]
+#[kani::stub(SolarTime::get_term, w_get_term_time)]
+#[kani::stub(SolarTerm::get_julian_day, w_term_jd_code)]
+#[kani::stub(SolarTime::is_before, w_time_before)]
+#[kani::stub(SolarTime::is_after, w_time_after)]
+#[kani::stub(SolarTime::get_lunar_hour, w_lunar_hour)]
+#[kani::stub(LunarMonth::from_ym, w_month_from_ym)]
+#[kani::stub(LunarMonth::get_sixty_cycle, w_month_pillar)]
+#[kani::stub(LunarDay::get_sixty_cycle, w_day_pillar)]
+#[kani::stub(LunarHour::get_sixty_cycle, w_hour_pillar)]
+#[kani::stub(SixtyCycle::from_index, faithful_cycle_from_index)]
+fn c09_k_from_solar_time() {
+  let (sy, (m, d, h, mi, s), tseq, after) = w_world(true);
+  let t = SolarTime::from_ymd_hms(sy, m, d, h, mi, s);
+  let r = SixtyCycleHour::from_solar_time(t);
+  assert!(r.day.month.year.year == if after { sy } else { sy - 1 }, "year pillar switches at the start-of-spring instant");
+  let k = spec::ediv(tseq - 3, 2);
+  assert!(r.day.month.month.get_index() as i64 == spec::emod(unsafe { W_BASE } as i64 + k, 60), "month pillar switches at each Jie instant");
+  assert!(r.day.day.get_index() as i64 == spec::emod(unsafe { W_DP } as i64 + if h == 23 { 1 } else { 0 }, 60), "the day pillar is that of the lunar day, advanced by one from 23:00 (the Zi hour opens the next day)");
+  assert!(r.hour.get_index() as isize == unsafe { W_HP } && r.solar_time == t && r.day.solar_day == t.get_solar_day(), "hour pillar, instant and date are carried unchanged");
+  core::mem::forget(r);
+  kani::cover!(h == 23 && !after, "from_solar_time reachable");
+}
+
+// closing lemma of C08 (pure arithmetic over the contracts above, no library code): the month stem is fixed by the stem
+// of the PILLAR year through the Five-Tigers rule, also in January / early February where the pillar year is the
+// previous civil year but the month pillar is counted back from the first month of the current one.
+#[kani::proof]
+#[kani::stub(alloc::fmt::format, stub_format)]
+fn c08_k_pair_lemma() {
+  let sy: i64 = kani::any(); let tseq: i64 = kani::any();
+  kani::assume(sy >= 2 && sy <= 9998 && tseq >= 0 && tseq <= 24);
+  let after = tseq >= 3;
+  let pillar_year = if after { sy } else { sy - 1 };
+  let k = spec::ediv(tseq - 3, 2);                                   // c08_k_from_solar_day
+  let first_stem = spec::five_tigers(spec::emod(sy - 4, 10));        // c08_k_first_month_args / c08_k_month_pillar_args
+  let (month_stem, month_branch) = (spec::emod(first_stem + k, 10), spec::emod(2 + k, 12));
+  let position = spec::emod(month_branch - 2, 12);
+  assert!(month_stem == spec::emod(spec::five_tigers(spec::emod(pillar_year - 4, 10)) + position, 10), "month stem == Five-Tigers stem of the pillar-year stem + position of the month branch counted from Yin");
+  assert!(spec::emod(month_stem, 2) == spec::emod(month_branch, 2), "stem and branch have the same parity: a legal pillar");
+  kani::cover!(!after && k == -2, "pair_lemma reachable (Zi month of the previous pillar year)");
 }
